@@ -179,6 +179,20 @@ fn mean_ci<F: Fl>(case: &Value) -> Value {
                     "ops" => <$T<F> as StatisticsOps<F>>::ci(conf, &a),
                     "meanci" => <$T<F> as MeanCI<F>>::ci(conf, &a),
                     "from_iter" => { let s = $T::<F>::from_iter(&a)?; reg = Some(s); s.ci_mean(conf) }
+                    // everything through the StatisticsOps TRAIT (what code generic over `S: StatisticsOps<F>` reaches;
+                    // method-call syntax on a concrete value prefers an inherent method of the same name)
+                    "ops_mean" => {
+                        let mut s = <$T<F> as Default>::default();
+                        let r = <$T<F> as StatisticsOps<F>>::extend(&mut s, &a);
+                        reg = Some(s); r?;
+                        <$T<F> as StatisticsOps<F>>::ci_mean(&s, conf)
+                    }
+                    "ops_append" => {
+                        let mut s = <$T<F> as StatisticsOps<F>>::from_iter(&Vec::<F>::new())?;
+                        for x in &a { if let Err(e) = <$T<F> as StatisticsOps<F>>::append(&mut s, *x) { reg = Some(s); return Err(e); } }
+                        reg = Some(s);
+                        <$T<F> as StatisticsOps<F>>::ci_mean(&s, conf)
+                    }
                     "extend" => { let mut s = $T::<F>::new(); let r = s.extend(&a); reg = Some(s); r?; s.ci_mean(conf) }
                     "append" => {
                         let mut s = $T::<F>::default();
@@ -188,6 +202,15 @@ fn mean_ci<F: Fl>(case: &Value) -> Value {
                     }
                     "lfold1" | "rfold1" | "rfold1_assign" | "lfold7" | "rfold7" | "tree" => {
                         let s = merged!($T); reg = Some(s); s.ci_mean(conf)
+                    }
+                    // the sample merged with itself `doublings` times (s = s + s), then delivered `extra` more times one by one:
+                    // len * (2^doublings + extra) observations in O(doublings) steps - counts beyond 2^32
+                    "doubling" => {
+                        let mut s = $T::<F>::from_iter(&a)?;
+                        for _ in 0..case["doublings"].as_u64().unwrap() { s = s + s; }
+                        for _ in 0..case["extra"].as_u64().unwrap() { for x in &a { StatisticsOps::append(&mut s, *x)?; } }
+                        reg = Some(s);
+                        s.ci_mean(conf)
                     }
                     // many bulk calls with small batches on the same, already populated state
                     "extend4" => {
@@ -206,9 +229,16 @@ fn mean_ci<F: Fl>(case: &Value) -> Value {
                 reg = Some(s);
             }
             let s = reg.unwrap();
-            stats["count"] = json!(s.sample_count());
-            stats["mean"] = stat(|| s.sample_mean());
-            stats["sem"] = stat(|| s.sample_sem());
+            stats["count_hex"] = json!(format!("{:x}", s.sample_count()));
+            if style.starts_with("ops") {
+                stats["count"] = json!(<$T<F> as StatisticsOps<F>>::sample_count(&s));
+                stats["mean"] = stat(|| <$T<F> as StatisticsOps<F>>::sample_mean(&s));
+                stats["sem"] = stat(|| <$T<F> as StatisticsOps<F>>::sample_sem(&s));
+            } else {
+                stats["count"] = json!(s.sample_count());
+                stats["mean"] = stat(|| s.sample_mean());
+                stats["sem"] = stat(|| s.sample_sem());
+            }
             out
         }};
     }
@@ -392,6 +422,7 @@ fn prop_ci(case: &Value) -> Value {
     // counts beyond the 32-bit integers of the validator are written a * 2^p
     let big = |v: &Value| (v["a"].as_u64().unwrap() as usize) << v["p"].as_u64().unwrap();
     let n = if case.get("nbig").is_some() { big(&case["nbig"]) } else { case["n"].as_u64().unwrap() as usize };
+    let n = n + case.get("nplus").and_then(|x| x.as_u64()).unwrap_or(0) as usize;      // n = a * 2^p + r
     let k = if case.get("kbig").is_some() { big(&case["kbig"]) } else { case["k"].as_u64().unwrap() as usize };
     // "kminus": all but that many trials succeeded
     let k = if let Some(m) = case.get("kminus").and_then(|x| x.as_u64()) { n - m as usize } else { k };
@@ -694,7 +725,7 @@ fn quant_data(case: &Value) -> Value {
 pub fn run(case: &Value) -> Vec<Value> {
     let ev = match case["op"].as_str().unwrap() {
         "mean.ci" => if case["ty"] == "f32" { mean_ci::<f32>(case) } else { mean_ci::<f64>(case) },
-        "prop.ci" | "prop.big" => prop_ci(case),
+        "prop.ci" | "prop.big" | "prop.xlev" => prop_ci(case),
         "prop.sig" => prop_sig(case),
         "prop.stats_new" => prop_stats_new(case),
         "quant.ranks" => quant_ranks(case),
